@@ -1599,6 +1599,40 @@ func (g *gen) genNonMin(n int) {
 	}
 }
 
+// property lengths at the boundaries of the variable byte integer (C15: "property length … written in the unique minimal
+// form"): every packet type that has a property section, with one user property sized so that the section is exactly
+// 126..129 or 16382..16385 bytes long; the frame is read by the strict specification parser (judge: js_c02's oracle)
+func (g *gen) genPropLen(n int) {
+	kinds := []string{"Connect", "ConnAck", "Publish", "PubAck", "PubRec", "PubRel", "PubComp", "Subscribe", "SubAck", "Unsubscribe", "UnsubAck", "Disconnect", "Auth"}
+	targets := []int{126, 127, 128, 129, 16382, 16383, 16384, 16385}
+	for c := 0; c < n; c++ {
+		kind := kinds[c%len(kinds)]
+		t := targets[(c/len(kinds))%len(targets)]
+		g.emit("RESET")
+		g.emit("NOTE case=proplen wf=1 kind=%s target=%d", kind, t)
+		g.emit("NEW p %s", kind)
+		switch kind {
+		case "Publish":
+			g.emit("SET p SetTopicName 74")
+		case "Subscribe":
+			g.emit("SET p SetPacketID 1")
+			g.emit("SET p AddFilters 61 1")
+		case "Unsubscribe":
+			g.emit("SET p SetPacketID 1")
+			g.emit("SET p AddFilter 61")
+		case "SubAck", "UnsubAck":
+			g.emit("SET p SetPacketID 1")
+			g.emit("SET p AddReasonCode 0")
+		case "PubAck", "PubRec", "PubRel", "PubComp":
+			g.emit("SET p SetPacketID 1")
+		}
+		// identifier (1) + key length (2) + key (1) + value length (2) + value
+		g.emit("SET p AddUserProp 6b %s", hxd(bytesRepeat('v', t-6)))
+		g.emit("VIEW p")
+		g.emit("ENC p")
+	}
+}
+
 // remaining lengths at the boundaries of the variable byte integer, decoded from a real stream by ReadPacket under
 // delivery schedules that split the fixed header (C15: the streaming decoder returns exactly that value and advances by
 // exactly those bytes): PUBLISH frames of remaining length v, and a second frame behind to see where the first ended
